@@ -1119,7 +1119,12 @@ impl CommandExecutor for DrawExecutor {
                 Ok(CallbackAction::Update)
             }
 
-            IgsCommands::TimeAPause => Ok(CallbackAction::Pause(1000 * parameters[0] as u32)),
+            IgsCommands::TimeAPause => {
+                if parameters.len() != 1 {
+                    return Err(anyhow::anyhow!("TimeAPause command requires 1 argument"));
+                }
+                Ok(CallbackAction::Pause(1000u32.saturating_mul(parameters[0].clamp(0, 3600) as u32)))
+            }
 
             IgsCommands::PolymarkerPlot => {
                 if parameters.len() != 2 {
@@ -1219,6 +1224,9 @@ impl CommandExecutor for DrawExecutor {
                     1 => self.terminal_resolution = TerminalResolution::Medium,
                     _ => return Err(anyhow::anyhow!("SetResolution unknown/unsupported argument: {}", parameters[0])),
                 }
+                // the canvas always has the size of the resolution it is exposed with
+                let res = self.get_resolution();
+                self.screen.resize((res.width * res.height) as usize, 1);
                 match parameters[1] {
                     0 => { // no change
                     }
